@@ -36,177 +36,33 @@ def Op.score? : Op → Option (Bytes × F64)
   | .add m s | .addXX m s | .addNX m s | .addLT m s | .addGT m s | .incrBy m s => some (m, s)
   | _ => none
 
-/-- admissibility of one operation in state `z`: the written score is not NaN, and for the
-    operations that can overwrite an IEEE-equal score (ZADD, ZADD XX, ZINCRBY) it is not the other
-    zero -/
-def Op.Ok (z : ZSet) : Op → Prop
-  | .add m s | .addXX m s | .incrBy m s => F64.isNaN s = false ∧ ZeroSafe z m s
-  | .addNX _ s | .addLT _ s | .addGT _ s => F64.isNaN s = false
-  | _ => True
+/-- admissibility of an operation: the score it may write is not NaN -/
+def Op.NoNaN (op : Op) : Prop :=
+  match op.score? with
+  | some (_, s) => F64.isNaN s = false
+  | none => True
 
 def run (z : ZSet) (ops : List Op) : ZSet := ops.foldl Op.apply z
 
-/-- every operation of the sequence is admissible in the state in which it is executed -/
-def RunOk : ZSet → List Op → Prop
-  | _, [] => True
-  | z, op :: ops => op.Ok z ∧ RunOk (op.apply z) ops
-
-theorem inv_apply {z : ZSet} (h : Inv z) (op : Op) (hok : op.Ok z) : Inv (op.apply z) := by
+theorem inv_apply {z : ZSet} (h : Inv z) (op : Op) (hok : op.NoNaN) : Inv (op.apply z) := by
   cases op with
-  | add m s => exact inv_zAdd h m s hok.1 hok.2
-  | addXX m s => exact inv_zAddXX h m s hok.1 hok.2
+  | add m s => exact inv_zAdd h m s hok
+  | addXX m s => exact inv_zAddXX h m s hok
   | addNX m s => exact inv_zAddNX h m s hok
   | addLT m s => exact inv_zAddLT h m s hok
   | addGT m s => exact inv_zAddGT h m s hok
-  | incrBy m s => exact inv_zAdd h m s hok.1 hok.2
+  | incrBy m s => exact inv_zAdd h m s hok
   | rem ms => exact inv_zRem h ms
   | remRangeByScore min max mode => exact inv_zRemRangeByScore h min max mode
   | remRangeByRank start stop => exact inv_zRemRangeByRank h start stop
 
-theorem inv_run : ∀ (ops : List Op) (z : ZSet), Inv z → RunOk z ops → Inv (run z ops) := by
+theorem inv_run : ∀ (ops : List Op) (z : ZSet), Inv z → (∀ op ∈ ops, op.NoNaN) → Inv (run z ops) := by
   intro ops
   induction ops with
   | nil => intro z h _; exact h
   | cons op ops ih =>
     intro z h hok
-    exact ih (op.apply z) (inv_apply h op hok.1) hok.2
-
-/-! ### state-independent admissibility: no NaN, no negative zero -/
-
-def NoNegZero (z : ZSet) : Prop := ∀ p ∈ z.dict, p.2 ≠ F64.negZero
-
-def Op.Plain (op : Op) : Prop :=
-  match op.score? with
-  | some (_, s) => F64.isNaN s = false ∧ s ≠ F64.negZero
-  | none => True
-
-theorem zeroSafe_of_noNegZero {z : ZSet} (hd : z.dict.Pairwise KeyLt) (hn : NoNegZero z) (m : Bytes)
-    (s : F64) (hs : s ≠ F64.negZero) : ZeroSafe z m s := by
-  intro old hget heq
-  have hold : old ≠ F64.negZero := hn (m, old) ((get?_iff_mem m old z.dict hd).mp hget)
-  rcases F64.eq_bits s old heq with h | ⟨_, h⟩ | ⟨h, _⟩
-  · exact h
-  · exact absurd h hold
-  · exact absurd h hs
-
-theorem dict_zAdd_subset {z : ZSet} (hd : z.dict.Pairwise KeyLt) (m : Bytes) (s : F64) :
-    ∀ p ∈ (zAdd z m s).1.dict, p ∈ z.dict ∨ p = (m, s) := by
-  intro p hp
-  have key : ∀ p ∈ AList.set z.dict m s, p ∈ z.dict ∨ p = (m, s) := by
-    intro p hp
-    rcases (mem_set m s p z.dict hd).mp hp with h | ⟨h, _⟩
-    · exact Or.inr h
-    · exact Or.inl h
-  unfold zAdd at hp
-  cases hget : AList.get? z.dict m with
-  | none => rw [hget] at hp; exact key p hp
-  | some old =>
-    rw [hget] at hp
-    simp only at hp
-    split at hp <;> exact key p hp
-
-theorem dict_remStep_subset (acc : ZSet × Int) (m : Bytes) :
-    ∀ p ∈ (remStep acc m).1.dict, p ∈ acc.1.dict := by
-  intro p hp
-  unfold remStep at hp
-  cases hget : AList.get? acc.1.dict m with
-  | none => rw [hget] at hp; exact hp
-  | some sc => rw [hget] at hp; exact (erase_sublist m acc.1.dict).subset hp
-
-theorem dict_foldl_remStep_subset : ∀ (ms : List Bytes) (acc : ZSet × Int),
-    ∀ p ∈ (ms.foldl remStep acc).1.dict, p ∈ acc.1.dict := by
-  intro ms
-  induction ms with
-  | nil => intro acc p hp; exact hp
-  | cons m ms ih =>
-    intro acc p hp
-    exact dict_remStep_subset acc m p (ih _ p hp)
-
-theorem dict_apply_subset {z : ZSet} (hd : z.dict.Pairwise KeyLt) (op : Op) :
-    ∀ p ∈ (op.apply z).dict, p ∈ z.dict ∨ some p = op.score? := by
-  intro p hp
-  cases op with
-  | add m s =>
-    rcases dict_zAdd_subset hd m s p hp with h | h
-    · exact Or.inl h
-    · exact Or.inr (by rw [h]; rfl)
-  | incrBy m s =>
-    rcases dict_zAdd_subset hd m s p hp with h | h
-    · exact Or.inl h
-    · exact Or.inr (by rw [h]; rfl)
-  | addXX m s =>
-    simp only [Op.apply, zAddXX] at hp
-    split at hp
-    · rcases dict_zAdd_subset hd m s p hp with h | h
-      · exact Or.inl h
-      · exact Or.inr (by rw [h]; rfl)
-    · exact Or.inl hp
-  | addNX m s =>
-    simp only [Op.apply, zAddNX] at hp
-    split at hp
-    · rcases dict_zAdd_subset hd m s p hp with h | h
-      · exact Or.inl h
-      · exact Or.inr (by rw [h]; rfl)
-    · exact Or.inl hp
-  | addLT m s =>
-    simp only [Op.apply, zAddLT] at hp
-    split at hp
-    · split at hp
-      · rcases dict_zAdd_subset hd m s p hp with h | h
-        · exact Or.inl h
-        · exact Or.inr (by rw [h]; rfl)
-      · exact Or.inl hp
-    · exact Or.inl hp
-  | addGT m s =>
-    simp only [Op.apply, zAddGT] at hp
-    split at hp
-    · split at hp
-      · rcases dict_zAdd_subset hd m s p hp with h | h
-        · exact Or.inl h
-        · exact Or.inr (by rw [h]; rfl)
-      · exact Or.inl hp
-    · exact Or.inl hp
-  | rem ms =>
-    exact Or.inl (dict_foldl_remStep_subset ms (z, 0) p hp)
-  | remRangeByScore min max mode =>
-    exact Or.inl ((foldl_erase_sublist _ z.dict).subset hp)
-  | remRangeByRank start stop =>
-    simp only [Op.apply, zRemRangeByRank_core, remByRankCore] at hp
-    split at hp
-    · exact Or.inl hp
-    · exact Or.inl ((foldl_erase_sublist _ z.dict).subset hp)
-
-theorem plain_ok {z : ZSet} (h : Inv z) (hn : NoNegZero z) (op : Op) (hp : op.Plain) : op.Ok z := by
-  cases op with
-  | add m s => exact ⟨hp.1, zeroSafe_of_noNegZero h.dictPW hn m s hp.2⟩
-  | addXX m s => exact ⟨hp.1, zeroSafe_of_noNegZero h.dictPW hn m s hp.2⟩
-  | incrBy m s => exact ⟨hp.1, zeroSafe_of_noNegZero h.dictPW hn m s hp.2⟩
-  | addNX m s => exact hp.1
-  | addLT m s => exact hp.1
-  | addGT m s => exact hp.1
-  | rem ms => trivial
-  | remRangeByScore min max mode => trivial
-  | remRangeByRank start stop => trivial
-
-theorem noNegZero_apply {z : ZSet} (h : Inv z) (hn : NoNegZero z) (op : Op) (hp : op.Plain) :
-    NoNegZero (op.apply z) := by
-  intro p hpm
-  rcases dict_apply_subset h.dictPW op p hpm with h1 | h1
-  · exact hn p h1
-  · unfold Op.Plain at hp
-    rw [← h1] at hp
-    exact hp.2
-
-theorem inv_run_plain : ∀ (ops : List Op) (z : ZSet), Inv z → NoNegZero z → (∀ op ∈ ops, op.Plain) →
-    Inv (run z ops) ∧ NoNegZero (run z ops) := by
-  intro ops
-  induction ops with
-  | nil => intro z h hn _; exact ⟨h, hn⟩
-  | cons op ops ih =>
-    intro z h hn hp
-    have hop := hp op (by simp)
-    exact ih (op.apply z) (inv_apply h op (plain_ok h hn op hop)) (noNegZero_apply h hn op hop)
-      (fun o ho => hp o (by simp [ho]))
+    exact ih (op.apply z) (inv_apply h op (hok op (by simp))) (fun o ho => hok o (by simp [ho]))
 
 /-! ### the set built by ZUNIONSTORE / ZINTERSTORE -/
 
@@ -220,33 +76,43 @@ theorem buildFrom_eq_run (z : ZSet) (items : List Item) :
   rw [List.foldl_map]
   rfl
 
-theorem zAdd_dict (z : ZSet) (m : Bytes) (s : F64) : (zAdd z m s).1.dict = AList.set z.dict m s := by
-  unfold zAdd
-  cases AList.get? z.dict m with
-  | none => rfl
-  | some old => simp only; split <;> rfl
+theorem inv_buildFrom (items : List Item) (z : ZSet) (h : Inv z)
+    (hn : ∀ it ∈ items, F64.isNaN it.1 = false) : Inv (buildFrom z items) := by
+  rw [buildFrom_eq_run]
+  apply inv_run _ z h
+  intro op hop
+  obtain ⟨it, hit, rfl⟩ := List.mem_map.mp hop
+  exact hn it hit
 
-/-- distinct members (the items come out of a map) and non-NaN scores: fully well formed, signed
-    zeros included, because nothing is ever overwritten -/
-theorem inv_buildFrom : ∀ (items : List Item) (z : ZSet), Inv z →
-    (∀ it ∈ items, F64.isNaN it.1 = false) → (∀ it ∈ items, AList.get? z.dict it.2 = none) →
-    (items.map (·.2)).Nodup → Inv (buildFrom z items) := by
-  intro items
-  induction items with
-  | nil => intro z h _ _ _; exact h
-  | cons it items ih =>
-    intro z h hn hfresh hnd
-    obtain ⟨hnot, hnd'⟩ := List.nodup_cons.mp hnd
-    have hstep : Inv (zAdd z it.2 it.1).1 :=
-      inv_zAdd h it.2 it.1 (hn it (by simp))
-        (by intro o ho; rw [hfresh it (by simp)] at ho; cases ho)
-    apply ih _ hstep (fun x hx => hn x (by simp [hx])) _ hnd'
-    intro x hx
-    rw [zAdd_dict]
-    have hne : x.2 ≠ it.2 := by
-      intro e
-      exact hnot (List.mem_map.mpr ⟨x, hx, e⟩)
-    rw [get?_set_other it.2 x.2 it.1 hne]
-    exact hfresh x (by simp [hx])
+/-! ### the score stored by ZADD -/
+
+theorem eq_symm (a b : F64) (h : F64.eq a b = true) : F64.eq b a = true := by
+  simp only [F64.eq, Bool.and_eq_true, Bool.not_eq_true', beq_iff_eq] at h ⊢
+  exact ⟨⟨h.1.2, h.1.1⟩, h.2.symm⟩
+
+/-- after `zAdd z m s` the member's score is `s`, except that a stored IEEE-equal score is kept
+    (so the only possible bit difference is the sign of a zero); other members are untouched -/
+theorem zAdd_score (z : ZSet) (m : Bytes) (s : F64) (hs : F64.isNaN s = false) :
+    (∃ s', zScore (zAdd z m s).1 m = some s' ∧ F64.eq s' s = true ∧
+      (s' = s ∨ (zScore z m = some s' ∧ ((s' = 0 ∧ s = F64.negZero) ∨ (s' = F64.negZero ∧ s = 0))))) ∧
+    ∀ m', m' ≠ m → zScore (zAdd z m s).1 m' = zScore z m' := by
+  have hss : F64.eq s s = true := by simp [F64.eq, hs]
+  unfold zScore zAdd
+  cases hget : AList.get? z.dict m with
+  | none =>
+    exact ⟨⟨s, get?_set_self m s z.dict, hss, Or.inl rfl⟩,
+      fun m' hne => get?_set_other m m' s hne z.dict⟩
+  | some old =>
+    simp only
+    by_cases heq : F64.eq s old = true
+    · rw [if_pos heq]
+      refine ⟨⟨old, hget, eq_symm s old heq, ?_⟩, fun _ _ => rfl⟩
+      rcases F64.eq_bits s old heq with h | ⟨h1, h2⟩ | ⟨h1, h2⟩
+      · exact Or.inl h.symm
+      · exact Or.inr ⟨rfl, Or.inr ⟨h2, h1⟩⟩
+      · exact Or.inr ⟨rfl, Or.inl ⟨h2, h1⟩⟩
+    · rw [if_neg heq]
+      exact ⟨⟨s, get?_set_self m s z.dict, hss, Or.inl rfl⟩,
+        fun m' hne => get?_set_other m m' s hne z.dict⟩
 
 end NodisVerif.Proofs.C04
